@@ -130,6 +130,7 @@ pub fn enabled<P: Proto>(w: &ClientWorld<P>, cfg: &Cfg) -> Vec<(CAct, u8)> {
                             v.push((CAct::U(UReq::Subscribe), 0));
                             v.push((CAct::U(UReq::Unsubscribe), 0));
                             v.push((CAct::U(UReq::Publish { qos: 1 }), 0));
+                            v.push((CAct::U(UReq::Disconnect), 0));
                         }
                     }
                     1 => {
@@ -176,6 +177,26 @@ pub fn enabled<P: Proto>(w: &ClientWorld<P>, cfg: &Cfg) -> Vec<(CAct, u8)> {
                         v.push((CAct::Partial(inbound(1, 4, 603), 1), 1));
                         if sent < 2 {
                             v.push((CAct::U(UReq::Publish { qos: 1 }), 0));
+                        }
+                    }
+                    4 => {
+                        // writes the client makes on its own or on request, next to inbound
+                        // flows: keep-alive pings, a DISCONNECT the user asks for
+                        v.push((CAct::T(cfg.keep_alive_s as u32 * 1000), 0));
+                        v.push((CAct::B(Pk::PingResp), 0));
+                        v.push((CAct::B(inbound(1, 1, 900)), 0));
+                        v.push((CAct::B(inbound(2, 2, 901)), 0));
+                        v.push((CAct::B(Pk::PubRel(2, 0)), 0));
+                        if sent < 2 {
+                            v.push((CAct::U(UReq::Publish { qos: 1 }), 0));
+                            v.push((CAct::U(UReq::Subscribe), 0));
+                            v.push((CAct::U(UReq::Disconnect), 0));
+                        }
+                        if unacked > 0 {
+                            v.push((CAct::AckOldest, 0));
+                        }
+                        if w.mon.errors().len() < 2 {
+                            v.push((CAct::Fail, 1));
                         }
                     }
                     _ => {
@@ -386,11 +407,16 @@ fn plans(prop: &str, tier: Tier) -> Vec<Plan> {
         }
         "C10" => {
             for v5 in [false, true] {
-                for variant in 0..4u8 {
+                for variant in 0..5u8 {
                     let mut c = Cfg::base("C10", v5, 3);
                     c.variant = variant;
                     c.manual_acks = variant == 3;
+                    if variant == 4 {
+                        c.keep_alive_s = 5;
+                    }
                     let d = match (variant, q) {
+                        (4, true) => vec![4, 3],
+                        (4, false) => vec![6, 5],
                         (0, true) => vec![3, 3],
                         (0, false) => vec![4, 4],
                         (1, true) => vec![4, 4],
